@@ -17,6 +17,7 @@
 From Coq Require Import List NArith ZArith.
 From Parsley Require Import Base Utf8 ArithSpec ArithSpecProofs.
 From Parsley Require Import Grammar Engine EngineFacts Spec Sound Top Termination Arith ArithProofs.
+(* note: ArithSpec.chain / Spec.chain, ArithSpec.factor: use qualified names where both are in scope *)
 Import ListNotations.
 Open Scope N_scope.
 
@@ -181,3 +182,65 @@ Print Assumptions C05_total.
 Theorem C05_fuel_enough : forall inp, i_len inp <= MODEL_CAP -> (fuel_bound inp arith_K arith_Sz <= ARITH_FUEL)%nat.
 Proof. exact arith_fuel_enough. Qed.
 Print Assumptions C05_fuel_enough.
+
+(* C05_accepts, bounded form: for EVERY byte string of length <= 4 over {1 0 - + * / ( ) space} and
+   of length <= 5 over {1 0 - / ( ) space} (white space included) the model of Evaluate on the real,
+   trimming grammar agrees completely with the reference ([agree_b]: same value; division by zero
+   at the same position with that message; parse error exactly when the reference rejects) —
+   computed by the kernel's VM.  In particular every well-formed one is ACCEPTED.  (The unbounded
+   statement is proved below for the white-space-free sub-language.) *)
+Theorem C05_agree_bounded4 : forall s,
+  Forall (fun b => In b alpha9) s -> (length s <= 4)%nat -> agree_b FUEL5 s = true.
+Proof. exact ArithProofs.C05_agree_bounded4. Qed.
+Print Assumptions C05_agree_bounded4.
+Theorem C05_agree_bounded5 : forall s,
+  Forall (fun b => In b alpha7) s -> (length s <= 5)%nat -> agree_b FUEL5 s = true.
+Proof. exact ArithProofs.C05_agree_bounded5. Qed.
+Print Assumptions C05_agree_bounded5.
+Theorem C05_accepts_bounded_partial : forall s v,
+  (Forall (fun b => In b alpha9) s /\ (length s <= 4)%nat) \/
+  (Forall (fun b => In b alpha7) s /\ (length s <= 5)%nat) ->
+  arith_ref s 1 = Some v ->
+  exists ev, arith_evaluate (mk_input s 1) FUEL5 = Ok ev /\ forall e, ev <> EvParseErr e.
+Proof. exact C05_accepts_bounded. Qed.
+Print Assumptions C05_accepts_bounded_partial.
+
+(* On an input without any white-space byte the trimming wrappers LeftTrim/RightTrim(WsSpacesNl) are
+   the identity — for EVERY grammar, expression, context and fuel: the run on the grammar equals the
+   run on the grammar with those wrappers removed ([strip]): same nodes, same error, same context. *)
+Theorem C05_strip_sim : forall inp rules, nows inp -> forall f,
+  pstrip (parse inp rules f) (parse inp (map strip rules) f) /\
+  sstrip (seqp inp rules f) (seqp inp (map strip rules) f).
+Proof. exact strip_sim. Qed.
+Print Assumptions C05_strip_sim.
+
+(* [sp_e inp e p q]: the bytes from p to q spell the tree e of the left-recursive grammar with no
+   white space (integer literals by their lexeme, operators and parentheses by their byte) — the
+   character-level grammar, declaratively.  What is spelled is accepted by the reference, with the
+   tree's value. *)
+Theorem C05_spells_ref : forall inp e,
+  sp_e inp e (i_offset inp) (i_offset inp + i_len inp) ->
+  arith_ref (i_data inp) (i_offset inp) = Some (eval e).
+Proof. exact spells_ref. Qed.
+Print Assumptions C05_spells_ref.
+
+(* C05_accepts, PARTIAL: every well-formed expression WITHOUT WHITE SPACE is accepted — by the model
+   of parsley.Evaluate on THE grammar (with its trimming wrappers), with the fuel of C02, for inputs
+   of any length and depth — and evaluates to the value of the tree it spells (or its division by
+   zero), which is the reference's answer.  Proof: C01/C04 completeness (Pump.C04_sentence_complete)
+   on the trim-free grammar + C05_strip_sim + C05_total.
+   FULL STATEMENT, NOT PROVED: the same for inputs WITH white space between tokens, i.e.
+     forall inp fuel v, bytes_ok (i_data inp) -> fuel_bound inp arith_K arith_Sz <= fuel ->
+       arith_ref (i_data inp) (i_offset inp) = Some v ->
+       exists ev, arith_evaluate inp fuel = Ok ev /\ forall e, ev <> EvParseErr e.
+   Missing: a completeness theorem of the engine for grammars with LeftTrim/RightTrim (C01's covers
+   Any, SeqOf, Optional, Empty, terminals, Memoize only).  With white space the statement is covered by
+   the bounded theorems above and by the differential run of ./check C05. *)
+Theorem C05_accepts_nows_partial : forall inp fuel e,
+  bytes_ok (i_data inp) -> nows inp -> (fuel_bound inp arith_K arith_Sz <= fuel)%nat ->
+  sp_e inp e (i_offset inp) (i_offset inp + i_len inp) ->
+  arith_ref (i_data inp) (i_offset inp) = Some (eval e) /\
+  arith_evaluate inp fuel =
+    Ok (match eval e with AV z => EvValue (ValLit (VInt z)) | ADiv0 p => EvEvalErr (div0_err p) end).
+Proof. exact C05_accepts_nows. Qed.
+Print Assumptions C05_accepts_nows_partial.
